@@ -12,7 +12,8 @@ CLS_WORDS = ['Train', 'TrainData', 'TrainX', 'Data', 'DataX', 'Model', 'Eval', '
              'Norm', 'N', 'NX', 'Agg', 'AggTask', 'Report', 'Rep', 'Load', 'LoadAll', 'A', 'AB', 'Ab']
 GROUPS = [None, None, 'g', 'xg', 'g:h', 'h', 'gx']
 NS_WORDS = ['n', 'xn', 'nx', 'm', 'xm', 'train', 'tr', 'xtr', 'valid', 'a', 'xa', 'ab']
-PARAM_NAMES = ['p', 'q', 'size', 'dim', 'dim2', 'lr', 'lr2', 'alpha', 'opt', 'flag', 'names', 'cfgmap']
+# (the last ones are also names of attributes / methods of Config and dict: parameters may be called like that)
+PARAM_NAMES = ['p', 'q', 'size', 'dim', 'dim2', 'lr', 'lr2', 'alpha', 'opt', 'flag', 'names', 'cfgmap', 'name', 'namespace', 'context', 'keys', 'items', 'base_dir']
 DATA_KINDS = ['json_dict', 'json_dict', 'json_list', 'str', 'int', 'numpy', 'pandas', 'generator', 'lazy', 'listnp', 'dir', 'continues', 'memory',
               'json_dict', 'numpy', 'dir', 'generator', 'empty_gen', 'empty_listnp', 'empty_dir']
 STR_ALPHABET = ['a', 'b', 'x', "'", '"', ', ', ': ', '###', '$$$', '=', '[', ']', 'é', ' ', '\\', '\n', '0']
